@@ -6,6 +6,7 @@ import Uhppote.Proofs.CodecNoPanic
 import Uhppote.Proofs.CodecImage
 import Uhppote.Proofs.CodecRoundTrip
 import Uhppote.Proofs.CodecRead
+import Uhppote.Proofs.CodecConfined
 /-! # C18 — the codec is generic over message layouts
 
 Theorems about `Model.marshal` / `Model.unmarshal` for **every** layout that can be declared with
@@ -157,6 +158,35 @@ theorem C18_fixed_byte_enforced (t : String) (n off : Nat) (h : tagValue t = som
 /-- (v) decoded values share no memory with the input: the only two readers that hand a slice
     to `SetBytes` copy (generated facts; the dynamic half is the aliasing correspondence run) -/
 theorem C18_readers_copy : Gen.codecFacts.macReaderCopies = true ∧ Gen.codecFacts.ipReaderCopies = true := by
+  decide
+
+/-- (vi) **values outside their domain stay inside their field, and nothing panics**: for every well-formed layout and
+    EVERY tuple of values a Go program can hold - a MAC of 8 bytes, a date past year 9999, an HH:mm of 100 hours, an
+    address that is not IPv4, a PIN above 999999 - `Marshal` returns bytes or an error, never panics, and when it
+    returns bytes every position outside the ranges of the out-of-domain fields is exactly what the image rule says
+    (the other fields' wire bytes at their offsets, the protocol id, zero elsewhere). `goValue` only says that a
+    `SystemDate` / `SystemTime` holds calendar fields (they wrap a `time.Time`). This is the statement D16 violated. -/
+theorem C18_confined (L : Layout) (vs : List Val) (hwf : wf L.leaves = true) (hgo : Proofs.Codec.allGo vs) :
+    marshal Gen.codecFacts C12.genTables L vs ≠ .panic ∧
+    ∀ out, marshal Gen.codecFacts C12.genTables L vs = .ok out → confined L.leaves vs out = true := by
+  rw [C18_facts, C12.C12_tables.1]
+  exact Proofs.Codec.marshal_confined L vs hwf hgo
+
+/-! non-vacuity of (vi): an 8-byte MAC in front of a two-byte field, an HH:mm of 100:01 on the last two bytes - the
+    layout is well formed, the values are Go values, neither is in its domain, bytes come back, and they are confined -/
+def wildLayout : Layout :=
+  [.leaf "M" (.at 8 .macAddress none), .leaf "V" (.at 14 .version none), .leaf "T" (.at 62 .hhmm none)]
+def wildValues : List Val := [.mac [1, 2, 3, 4, 5, 6, 7, 8], .u16 0x0892, .hhmm ⟨100, 1⟩]
+
+example : wf wildLayout.leaves = true := by decide
+example : Proofs.Codec.allGo wildValues := by intro v hv; simp [wildValues] at hv; rcases hv with rfl | rfl | rfl <;> rfl
+example : image wildLayout.leaves wildValues = none := by decide
+example : marshal Gen.codecFacts C12.genTables wildLayout wildValues
+    = .ok ([0x17, 0, 0, 0, 0, 0, 0, 0, 1, 2, 3, 4, 5, 6, 0x08, 0x92] ++ zeros 48) := by decide
+example : confined wildLayout.leaves wildValues ([0x17, 0, 0, 0, 0, 0, 0, 0, 1, 2, 3, 4, 5, 6, 0x08, 0x92] ++ zeros 48) = true := by
+  decide
+/-- ... and a result in which the MAC had run over into the next field would not be -/
+example : confined wildLayout.leaves wildValues ([0x17, 0, 0, 0, 0, 0, 0, 0, 1, 2, 3, 4, 5, 6, 7, 8] ++ zeros 48) = false := by
   decide
 
 /-! non-vacuity: a 3-field layout with a field on the last two bytes -/
